@@ -78,23 +78,27 @@ Proof.
   assert (E : exists r, In r C21_witness /\ truncate (cd_of 1 "Min"%string) (b_t r) = zero_time).
   { exists (C21_tick zero_time 10). split; [left; reflexivity | vm_compute; reflexivity]. }
   destruct (cs_open _ _ _ (H L E)) as (r & [I M] & T & _).
-  assert (I0 : In (C21_tick zero_time 10) (window_rows (cd_of 1 "Min"%string) zero_time C21_witness)) by (vm_compute; left; reflexivity).
+  assert (I0 : In (C21_tick zero_time 10) (window_rows (cd_of 1 "Min"%string) zero_time C21_witness)).
+  { apply filter_In. split; [left; reflexivity | vm_compute; reflexivity]. }
   specialize (M _ I0). rewrite <- T in M. vm_compute in M. apply M. reflexivity.
 Qed.
 Print Assumptions C21_refuted.
 
 (** Non-vacuity: a concrete non-trivial input meets the hypotheses of C21_candle / C21_order_independent. *)
 Example C21_nonvacuous :
-  let rows := [C21_tick (1600000000 * NS) 10; C21_tick (1600000059 * NS) 12; C21_tick (1600000030 * NS) 7;
-               C21_tick (1600000061 * NS) 9] in
+  let rows := [C21_tick (1599999970 * NS) 10; C21_tick (1600000019 * NS) 12; C21_tick (1599999990 * NS) 7;
+               C21_tick (1600000021 * NS) 9] in
   rows_ok rows /\ NoDup (map b_t rows) /\ f32_nonan (map b_h rows) = true /\ f32_nonan (map b_l rows) = true
   /\ (exists r, In r rows /\ truncate (cd_of 1 "Min"%string) (b_t r) = 1599999960 * NS)
   /\ List.length (window_rows (cd_of 1 "Min"%string) (1599999960 * NS) rows) = 3%nat.
 Proof.
-  cbv zeta. split; [split|].
-  - intros r [E|[E|[E|[E|[]]]]]; subst r; vm_compute; discriminate.
+  cbv zeta. split; [split|split; [|split; [|split; [|split]]]].
+  - intros r [E|[E|[E|[E|[]]]]]; subst r; cbn [b_t C21_tick]; vm_compute; discriminate.
   - vm_compute. discriminate.
-  - split; [|split; [|split; [|split]]]; try (vm_compute; reflexivity).
-    + repeat constructor; cbn [map In b_t C21_tick]; vm_compute; intuition discriminate.
-    + eexists. split; [left; reflexivity | vm_compute; reflexivity].
+  - cbn [map b_t C21_tick]. repeat constructor; cbn [In]; intros K;
+      repeat (destruct K as [K|K]; [vm_compute in K; discriminate K|]); exact K.
+  - vm_compute. reflexivity.
+  - vm_compute. reflexivity.
+  - eexists. split; [left; reflexivity | vm_compute; reflexivity].
+  - unfold window_rows. vm_compute. reflexivity.
 Qed.
